@@ -80,6 +80,10 @@ def build(case):
     fpb = f"C03:{p['spec']}"
 
     def core(base, script):
+        if p.get("first") is not None:
+            from pv.engine.xsym import assume
+
+            assume(pick(script[0], alpha) == p["first"])  # shard: the driver's first operation
         rec, ns_t, ns_i = load_pair(late=bool(p.get("late")))
         ns_t["drive"](Env(ns_t, script, base, alpha, pick))
         groups = expected_immediate(rec, spec)
@@ -136,7 +140,9 @@ def cases(tier, seed):
     late = ["f(a)>g(b)>h>x", "f(a)>g(b)>h(c)>x", "f(a)>x", "f(a)>g(b)>x", "f(a)>f>x", "f(a,g(b))>h(c)>x", "g(b)>f>g>x"]
     for i, name in enumerate(late if th else late[:5]):
         cs.append({"id": f"{name}:late", "params": {"spec": name, "mech": "probing" if i % 2 == 0 else "overlay", "n": 5 if (th or name.count(">") >= 3) else 4,
-                                                   "alpha": 5 if th else 4, "late": True},
+                                                   "alpha": 5 if th else 4, "late": True,
+                                                   # quick, 5-item scripts: only those whose first operation calls f (every chain starts there)
+                                                   "first": 1 if (not th and name.count(">") >= 3) else None},
                    "budget_s": 3000 if th else 200, "per_path_s": 30})
     cs.append({"id": "f(a)>g(b)>x:probing:twin", "params": {"spec": "f(a)>g(b)>x", "mech": "probing", "n": 4, "alpha": 4},
                "vacuity_twin": True, "stop_on_refute": True, "budget_s": 100})
